@@ -71,6 +71,7 @@ TABLE: list[tuple[str, str, bool, str, list[F]]] = [
             F("lit", 'Literal["x", "y"]', "prop", "lit", '"x"'),
             F("ti", "tuple[int, ...]", "prop", "tint", "()"),
             F("tsi", "tuple[str, int]", "prop", "tsi", '("k", 1)'),
+            F("ts", "tuple[str, ...]", "prop", "tstr", "()"),
             F("uid", "UserId", "prop", "str", 'UserId("u")'),
             F("g", "float", "prop", "float", "0.0"),
             F("op", "Op", "prop", "op", "Op.ADD"),
@@ -496,6 +497,7 @@ def pool_for(vt: str) -> list[Any]:
         "tok": TOK_POOL,
         "op": ["ADD", "SUB"],
         "fs2": FS2_POOL,
+        "tstr": [[], ["x"], ["a, b", "c"], ["a", "b, c"], ["1", "2"], ["1, 2"], ["'a'"], ["a"]],
         "ebag": EBAG_POOL,
         "eset": EBAG_POOL,
         "kind": ["NUM", "TXT"],
@@ -542,7 +544,7 @@ def decode(vt: str, j: Any) -> Any:
         return Color[j]
     if vt == "path":
         return Path(j)
-    if vt in ("tint", "tsi"):
+    if vt in ("tint", "tsi", "tstr"):
         return tuple(j)
     if vt == "fs":
         return frozenset(j) if not isinstance(j, dict) else _fs_ordered(j["order"])
@@ -583,7 +585,7 @@ def encode(vt: str, v: Any) -> Any:
         return v.name
     if vt == "path":
         return v.as_posix()
-    if vt in ("tint", "tsi"):
+    if vt in ("tint", "tsi", "tstr"):
         return list(v)
     if vt == "fs":
         return sorted(v)
